@@ -1,7 +1,42 @@
-"""Registry: which units serve which property, and the level each property is claimed at."""
+"""Registry: which units serve which property, the level each property is claimed at, and the manifest texts."""
 REGISTRY = {
-    'C19': ['atomic'],
     'C01': ['base_core'],
     'C06': ['base_core'],
+    'C19': ['atomic'],
 }
 LEVEL = {'C04': 'other'}
+
+TECHNIQUE = 'CBMC code contracts (goto-instrument --dfcc --enforce-contract / --replace-call-with-contract / --apply-loop-contracts) on function bodies extracted mechanically from /repo on every run'
+
+CLAIMS = {
+    'C01': {
+        'text': 'Rely/guarantee contracts at atomic-operation granularity on the unique callback word: SetCallbackImpl<false>, ResetImpl, '
+                'SetInlineImpl, SetResultImpl (both transfer modes), Empty/Ready, StoreCallbackImpl, Loop, Step, Noop are extracted from the '
+                'current source and proved per function for every placement of the other role\'s steps (any interleaving under SC); lemma '
+                'jobs prove the invariant stable, the relies closed, and exactly-once delivery of the run token at quiescence.',
+        'note': 'Sequentially consistent atomics (orders are C04); one producer and one consumer role as the threading contract states; '
+                'Here/Next overrides are interface contracts proved per override in other units; replay of interleavings on the real code is '
+                'available only for the sequential witnesses.',
+        'design': 'DESIGN.md 6 C01, 5.B, A.1',
+    },
+    'C06': {
+        'text': 'Rely/guarantee contracts on the shared callback stack: push loop (SetCallbackImpl<true>, loop contract over the weak CAS), '
+                'SetInlineImpl<.,true>, the fulfilment walk of SetResultImpl<.,true> over a ghost pool of symbolic length (every registered '
+                'callback run exactly once, in order, after the value is stored; ->next read before the callback runs; three promise '
+                'references dropped, one before the last callback), Empty/Ready.',
+        'note': 'SC atomics; the callback list is a ghost pool (node k = pool[k], symbolic length up to 2^40) accessed through a live-node '
+                'accessor; reference-count thresholds of ResultCore::Impl are in unit result_core when present.',
+        'design': 'DESIGN.md 6 C06, 5.B, 5.I, A.2',
+    },
+    'C19': {
+        'text': 'Every member function body of the FIBER atomic re-implementation and of the fault-injecting wrapper (both cv overloads) is '
+                'extracted and proved, per function and for the full operand domain, against the std::atomic meaning of the operation written '
+                'as a postcondition; the wrapper is proved against any implementation satisfying that same contract (std::atomic trusted, '
+                'FIBER proved). Loop-free: a pass is a complete proof for single operations; sequences follow by induction.',
+        'note': 'Trusted: cbmc, the token-level rewrite, std::atomic itself, IEEE +/- as uninterpreted functions shared by spec and code, signed '
+                'overflow treated as wrap-around. quick = 6 representative T, thorough = all 14 T.',
+        'design': 'DESIGN.md 6 C19, 5.A',
+    },
+}
+
+NOT_APPLICABLE = {}
